@@ -14,8 +14,10 @@ out = ['# Seeded defects and which check catches them', '',
 for prop, name, d in sorted(rows):
     res = d['checks_run']['result']
     note = 'caught at first attempt' if 'MISSED' not in res and 'first attempt' not in res else res
+    if d.get('obsolete_since'):
+        note = res + ' OBSOLETE since ' + d['obsolete_since']
     out.append('| %s | `%s` | %s | %s | %s | %s |' % (prop, name, d['author'].split('(')[0].strip(), d['needs_to_manifest'].replace('|', '/'),
-                                                   '<br>'.join('`%s`' % c for c in d['caught_by']) or '**not caught**', note.replace('|', '/')))
+                                                   '<br>'.join('`%s`' % c for c in d['caught_by']) or ('obsolete' if d.get('obsolete_since') else '**not caught**'), note.replace('|', '/')))
 open(os.path.join(HERE, 'seeded', 'SUMMARY.md'), 'w').write('\n'.join(out) + '\n')
 design = os.path.join(HERE, 'DESIGN.md')
 d = open(design).read()
